@@ -68,6 +68,11 @@ chk('C08', 'exploration',
     'Complete products: 15 assignment operators x 7 target types x 7 operand types x boundary operands (0, +-1, INT64 min/max, 2^31, 63/64/65, NaN/inf, FLOAT_MAX/MIN, empty/not-set strings, epoch-boundary times) x {literal, variable} x 3 initial values; every built-in function of builtin.yml x every signature x boundary arguments per parameter type (full product up to 3 parameters); every statement derivation in all 9 scopes; recursion, restart in every scope, error-in-error, goto loops, all self/mutual/missing include shapes through ServeHTTP; the full lifecycle reading every readable predefined variable for 5 methods x 4 paths x 3 queries x 5 header sets x 1-3 requests; the test runner on 7 files. Oracle: returns a response or a reported error - no panic, no process death, no fuel exhaustion.',
     'Trusts: fuel instrumentation (2e7 ticks per case); the stub backend transport; each worker process attributes a fatal crash to the journalled case.')
 
+chk('C05', 'exploration',
+    'complete enumeration of two finite products of (operator/variable/function/statement x type/scope) cells, each instantiated as a program that is linted and executed',
+    'Product A: 15 assignment operators x 10 target kinds x 27 operands and 8 comparison operators x 27 x 27 operands (9 types x literal/local/predefined). Product B: every entry of predefined.yml x {get, set, set-of-read-only, unset}, every entry of builtin.yml x every signature, and the scope-restricted statements (restart, error, esi, synthetic, synthetic.base64, 9 return actions) x the 9 scopes and all 36 two-scope annotations (about 81000 cells). Oracle 1: the linter reports no ERROR on the use line iff the YAML tables (read from /repo at run time) allow the cell - for a multi-scope subroutine iff every scope allows it; for product A iff the committed matrix allows it. Oracle 2: every accepted cell executes in each of its scopes on the real interpreter without a crash and without an error of the contract classes.',
+    'Trusts: YAML loader; mc/ref/data/assigntable.tsv is a reviewed snapshot of the pinned linter matrix because the Fastly assignment type table (external spreadsheet) is unavailable offline - for product A the check decides drift from that snapshot plus accepted=>executes. 70 known-finding classes (variables the simulator does not implement, literal on the left of ==) are listed in known_findings.json.')
+
 NOT_YET = {i: 'check not built yet in this session (design in DESIGN.md §4); will be claimed once its command exists' for i in ids if i not in CHECKS}
 
 m = {
